@@ -110,6 +110,9 @@ class D1:
                     continue
                 return None
             if h == "ucall":
+                if getattr(self, "asref_view", False) and e[1] in ("core::convert::AsRef::as_ref", "core::borrow::Borrow::borrow") and len(e[2]) == 1:
+                    e = e[2][0]
+                    continue
                 return None
             return None
         return None
@@ -141,6 +144,7 @@ class D1:
             raise ValueError("no MIR body")
         e = return_expr(b, self.facts, inline=False)
         flips = 0
+        self.asref_view = False
         # result may pass through Ordering::reverse / Option::map(Ordering::reverse)
         while e[0] == "call" and e[1] in ("core::cmp::Ordering::reverse",):
             flips += 1
@@ -152,6 +156,12 @@ class D1:
                 if len(cands) == 1 and cands[0].kind == "fn" and cands[0].did != did:
                     from .flow import subst_params
                     inner = return_expr(cands[0], self.facts, inline=False)
+                    # a generic helper `fn h<T: AsRef<[u8]> + ?Sized>(lhs: &T, ..)`: `lhs.as_ref()` is a content-preserving view for
+                    # the byte / string / handle types it is instantiated with here (their AsRef<[u8]> impls are std's views or the
+                    # crate's own, checked as views)
+                    inst = tuple(strip_refs(str(t)) for t in (e[4] if len(e) > 4 else ()))
+                    if inst and all(t in BYTE_FAMILY or t in STR_FAMILY or t in self.handles for t in inst):
+                        self.asref_view = True
                     e = subst_params(inner, e[2])
                     continue
             break
